@@ -20,6 +20,23 @@ fn arg_set(spec: &Value, g: &SymbolicAsyncGraph, props: &Vec<String>) -> Result<
             model_check_tree_dirty(tree, g)
         }
         "formula" => model_check_formula_dirty(spec["f"].as_str().unwrap_or("true"), g),
+        // a single state (all variables fixed, pseudo-randomly) or its complement: sets whose
+        // fixed-point iterations change by a handful of states only
+        "cube" | "cocube" => {
+            let mut seed = spec["seed"].as_u64().unwrap_or(1) | 1;
+            let lits: Vec<String> = props
+                .iter()
+                .map(|p| {
+                    seed ^= seed << 13;
+                    seed ^= seed >> 7;
+                    seed ^= seed << 17;
+                    if seed & 1 == 1 { p.clone() } else { format!("~{p}") }
+                })
+                .collect();
+            let f = format!("({})", lits.join(" & "));
+            let f = if spec["t"].as_str() == Some("cocube") { format!("~{f}") } else { f };
+            model_check_formula_dirty(&f, g)
+        }
         "empty" => Ok(g.mk_empty_colored_vertices()),
         "unit" => Ok(g.mk_unit_colored_vertices()),
         x => Err(format!("unknown argument spec {x}")),
